@@ -83,6 +83,64 @@ def presents_secret(hasB, user, pw, hasT, tok, hdr):
     return False
 
 
+def server_stream(chk, binp, only=None):
+    """the REAL web server as `blackdagger server` builds it (config.Config -> frontend.New -> Server.Serve) on a loopback
+    port: the configured secrets reach the middleware through that wiring. For every configuration (none / basic / token /
+    both, empty secrets included) requests with no, wrong and right credentials on API paths: a request presenting neither
+    secret must be answered 401, standard right credentials must not be"""
+    rng = chk.rng
+    cases = []
+    if only is not None:
+        cases = [only]
+    else:
+        k = 0
+        for hasB, hasT in [(False, False), (True, False), (False, True), (True, True)]:
+            for rep in range(2 if chk.tier == "quick" else 8):
+                user, pw, tok = rng.choice(SECRETS[:5] + [b"a"]), rng.choice(SECRETS), rng.choice(SECRETS)
+                if rep == 0 and hasT: tok = b""             # token auth switched on with an empty secret
+                if rep == 1 and hasB: pw = b""
+                base = rng.choice([b"", b"", b"/bd"])
+                reqs = []
+                for kind, hdr in headers_for(rng, user, pw, tok):
+                    # the real server serves the API under /api/... whatever base path is configured (under <base>/api/...
+                    # it answers with the UI's index page): API paths are given without the base
+                    for path in (b"/api/v1/dags", rng.choice([b"/api/v1/dags/x", b"/api/v1/dags?x=1", b"/"])):
+                        reqs.append({"id": "q%d" % len(reqs), "method": rng.choice(["GET", "GET", "POST", "DELETE"]), "path": path.hex(),
+                                     "hasHdr": hdr is not None, "hdr": (hdr or b"").hex(), "kind": kind, "extra": []})
+                cases.append({"id": "srv%d" % k, "hasBasic": hasB, "user": user.hex(), "pass": pw.hex(), "hasToken": hasT, "token": tok.hex(),
+                              "base": base.hex(), "reqs": reqs}); k += 1
+    p = subprocess.run([binp, "server"], input="\n".join(json.dumps(c) for c in cases) + "\n", stdout=subprocess.PIPE,
+                       stderr=subprocess.PIPE, text=True, timeout=900)
+    res = {}
+    for l in p.stdout.strip().split("\n"):
+        if l.strip():
+            r = json.loads(l); res[r["id"]] = r["codes"]
+    n = 0
+    for c in cases:
+        codes = res.get(c["id"])
+        if not codes or len(codes) != len(c["reqs"]):
+            chk.oblige("harness-run:auth-server:" + c["id"], False, "codes=%r stderr=%s" % (codes, p.stderr[-300:])); continue
+        user, pw, tok = bytes.fromhex(c["user"]), bytes.fromhex(c["pass"]), bytes.fromhex(c["token"])
+        authcfg = c["hasBasic"] or c["hasToken"]
+        for q, code in zip(c["reqs"], codes):
+            n += 1; chk.evaluations += 1
+            path = bytes.fromhex(q["path"])
+            if not path.startswith(b"/api"):
+                continue
+            hdr = bytes.fromhex(q["hdr"]) if q["hasHdr"] else None
+            pres = presents_secret(c["hasBasic"], user, pw, c["hasToken"], tok, hdr)
+            one = dict({kk: vv for kk, vv in c.items() if kk != "reqs"}, reqs=[q])
+            if authcfg and not pres and code != 401:
+                chk.violation("C17:server:no-secret-not-401:" + q["kind"], "the real server (basic %s, token %s%s) answered %d instead of 401 to a request presenting neither secret (header kind %s)" % (
+                    c["hasBasic"], c["hasToken"], ", EMPTY token" if c["hasToken"] and not tok else "", code, q["kind"]), {"server_case": one})
+            if authcfg and code == 401 and ((q["kind"] == "basic_ok" and c["hasBasic"] and b":" not in user) or
+                                            (q["kind"] == "bearer_ok" and c["hasToken"] and tok and b" " not in tok)):
+                chk.violation("C17:server:standard-credentials-refused:" + q["kind"], "the real server answered 401 to standard right credentials", {"server_case": one})
+            if not authcfg and code == 401:
+                chk.violation("C17:server:refused-without-auth-configured", "no auth configured but the real server answered 401", {"server_case": one})
+    chk.stats = dict(getattr(chk, "stats", None) or {}, server_requests=n)
+
+
 def run(chk, replay):
     chk.trusted = common.TRUSTED_COMMON + ["net/http header parsing and base64 re-implemented in Lean (validated differentially; decode∘encode = id proved)"]
     chk.assumptions = ["header value as delivered to the handler (net/http's own trimming of the wire value is upstream of the chain)",
@@ -94,6 +152,8 @@ def run(chk, replay):
     chk.oblige("harness-build:auth", True)
     rng = chk.rng
     cases = []
+    if replay and "server_case" in json.load(open(replay)).get("case", {}):
+        server_stream(chk, binp, only=json.load(open(replay))["case"]["server_case"]); return
     if replay:
         cases = [json.load(open(replay))["case"]]
     else:
@@ -179,6 +239,8 @@ def run(chk, replay):
     if dis == 0:
         chk.oblige("correspondence:auth (impl = model on every request)", True)
     chk.stats = {"decisions": dist, "cases": len(cases)}
+    if not replay:
+        server_stream(chk, binp)
     chk.rule = ("4 auth configurations x secrets pool (incl. empty, prefix-related, token = password, ':' and ' ' inside, UTF-8) x "
                 "header grammar of %d kinds (scheme case, spacing, base64 validity, each part right/wrong/empty/truncated/wrong case, "
                 "secret under the other scheme, garbage) x methods x path shapes with/without base path; non-trivial = some auth configured; "
